@@ -1,7 +1,10 @@
 """C20 -- TL2 parser is total with in-range error positions (internal/tlast: tllexer.go with LexerLanguage = TL2,
-tlparser_tl2_code.go, tlparser_error.go)."""
+tlparser_tl2_code.go, tlparser_error.go).  Generators, harness runner and oracle are shared with C19: lib/lex_lib.py."""
 import lex_lib
+
+PROPS = "Props/C20"
+FAMILY = "lex"
 
 
 def run(ctx):
-    lex_lib.run_check(ctx, 2, "Props/C20")
+    lex_lib.run_check(ctx, 2, PROPS, FAMILY)
